@@ -675,3 +675,209 @@ Lemma savelog_wellformed_recorded pname pid l :
   Forall (fun o => json_object (render o) = true) objs /\
   json_array (saveLog pname pid (threads_of l)) = true.
 Proof. intros Hp Hl. apply savelog_wellformed; [exact Hp | apply threads_of_ok; exact Hl]. Qed.
+
+(* ================================================================== the recorder's map *)
+Lemma record_concat l e : concat (record l e) = concat l ++ [e].
+Proof.
+  destruct (record_cases l e) as [[El Er]|[[r [c [El [Hc Er]]]]|[r [c [El [Hc Er]]]]]]; rewrite Er.
+  - subst l. reflexivity.
+  - subst l. rewrite !concat_app. cbn [concat]. rewrite !app_nil_r, app_assoc. reflexivity.
+  - rewrite concat_app. cbn [concat]. rewrite app_nil_r. reflexivity.
+Qed.
+
+Lemma reg_find_app r en id :
+  reg_find (r ++ [en]) id =
+  match reg_find r id with Some x => Some x | None => if re_id en =? id then Some en else None end.
+Proof.
+  induction r as [|a r IH]; cbn [app reg_find]; [reflexivity|].
+  destruct (re_id a =? id); [reflexivity | exact IH].
+Qed.
+
+Lemma reg_evs_attach r id id' : reg_evs (reg_attach r id) id' = reg_evs r id'.
+Proof.
+  unfold reg_attach, reg_evs, reg_get. destruct (reg_find r id) eqn:F; [reflexivity|].
+  rewrite reg_find_app. destruct (reg_find r id'); [reflexivity|]. cbn [re_id].
+  destruct (id =? id'); reflexivity.
+Qed.
+
+Lemma reg_all_attach r id : reg_all (reg_attach r id) = reg_all r.
+Proof.
+  unfold reg_attach. destruct (reg_find r id); [reflexivity|].
+  unfold reg_all. rewrite flat_map_app. cbn. rewrite app_nil_r. reflexivity.
+Qed.
+
+Lemma reg_attach_found r id : exists en, reg_find (reg_attach r id) id = Some en.
+Proof.
+  unfold reg_attach. destruct (reg_find r id) as [en|] eqn:F.
+  - exists en. exact F.
+  - rewrite reg_find_app, F. cbn [re_id]. rewrite N.eqb_refl. eexists. reflexivity.
+Qed.
+
+Lemma reg_find_id r id en : reg_find r id = Some en -> re_id en = id.
+Proof.
+  induction r as [|a r IH]; cbn [reg_find]; [discriminate|].
+  destruct (N.eqb_spec (re_id a) id) as [E|E]; [intro H; inversion H as [H1]; rewrite <- H1; exact E | exact IH].
+Qed.
+
+(* updating the entry of id with a function that keeps the id *)
+Lemma reg_find_upd r id f id' :
+  (forall en, re_id (f en) = re_id en) ->
+  reg_find (reg_upd r id f) id' =
+  if id' =? id then option_map f (reg_find r id) else reg_find r id'.
+Proof.
+  intro Hf. induction r as [|a r IH]; cbn [reg_upd reg_find].
+  - destruct (id' =? id); reflexivity.
+  - destruct (N.eqb_spec (re_id a) id) as [E|E]; cbn [reg_find].
+    + rewrite Hf. destruct (N.eqb_spec id' id) as [E'|E'].
+      * subst id'. rewrite E, N.eqb_refl. reflexivity.
+      * destruct (N.eqb_spec (re_id a) id'); [congruence | reflexivity].
+    + destruct (N.eqb_spec id' id) as [E'|E'].
+      * subst id'. destruct (N.eqb_spec (re_id a) id); [contradiction | exact IH].
+      * destruct (N.eqb_spec (re_id a) id'); [reflexivity | exact IH].
+Qed.
+
+Lemma reg_all_upd_rec r id e en0 :
+  reg_find r id = Some en0 ->
+  length (reg_all (reg_upd r id (fun en => mkRe (re_id en) (re_name en) (record (re_events en) e)))) = S (length (reg_all r)).
+Proof.
+  revert en0. induction r as [|a r IH]; intros en0 F; cbn [reg_find] in F; [discriminate|].
+  cbn [reg_upd]. destruct (re_id a =? id).
+  - unfold reg_all. cbn [flat_map re_events]. rewrite !app_length, record_concat, app_length. cbn. lia.
+  - unfold reg_all in *. cbn [flat_map]. rewrite !app_length, (IH _ F). lia.
+Qed.
+
+Lemma reg_all_upd_name r id nm :
+  reg_all (reg_upd r id (fun en => mkRe (re_id en) (Some nm) (re_events en))) = reg_all r.
+Proof.
+  induction r as [|a r IH]; [reflexivity|]. cbn [reg_upd]. destruct (re_id a =? id).
+  - reflexivity.
+  - unfold reg_all in *. cbn [flat_map]. rewrite IH. reflexivity.
+Qed.
+
+Lemma reg_step_evs r o id :
+  reg_evs (reg_step r o) id = reg_evs r id ++ recs_of id [o].
+Proof.
+  destruct o as [i|i nm|i e]; cbn [reg_step recs_of flat_map].
+  - rewrite reg_evs_attach, app_nil_r. reflexivity.
+  - rewrite app_nil_r. unfold reg_evs, reg_get. rewrite reg_find_upd by reflexivity.
+    destruct (N.eqb_spec id i) as [E|E].
+    + subst i. pose proof (reg_evs_attach r id id) as A. unfold reg_evs, reg_get in A.
+      destruct (reg_find (reg_attach r id) id); cbn [option_map re_events] in *; exact A.
+    + apply (reg_evs_attach r i id).
+  - unfold reg_evs, reg_get. rewrite reg_find_upd by reflexivity.
+    destruct (N.eqb_spec id i) as [E|E].
+    + subst i. rewrite N.eqb_refl. cbn [app].
+      destruct (reg_attach_found r id) as [en F]. rewrite F. cbn [option_map re_events].
+      rewrite record_concat. f_equal.
+      pose proof (reg_evs_attach r id id) as A. unfold reg_evs, reg_get in A. rewrite F in A. exact A.
+    + destruct (N.eqb_spec i id); [congruence|]. cbn [app]. rewrite app_nil_r. apply (reg_evs_attach r i id).
+Qed.
+
+Lemma reg_fold_evs ops : forall r id,
+  reg_evs (fold_left reg_step ops r) id = reg_evs r id ++ recs_of id ops.
+Proof.
+  induction ops as [|o ops IH]; intros r id; cbn [fold_left].
+  - unfold recs_of. cbn. rewrite app_nil_r. reflexivity.
+  - rewrite IH, reg_step_evs. unfold recs_of. cbn [flat_map]. rewrite app_nil_r, <- app_assoc. reflexivity.
+Qed.
+
+(* no recorded event is ever dropped or moved: for every sequence of attach / name / record
+   operations, repeated thread ids included, the list kept under an id holds exactly the
+   events recorded under that id, in recording order *)
+Lemma reg_events_of ops id : reg_evs (reg_run ops) id = recs_of id ops.
+Proof. unfold reg_run. rewrite reg_fold_evs. reflexivity. Qed.
+
+Lemma reg_step_count r o :
+  length (reg_all (reg_step r o)) = (length (reg_all r) + rec_count [o])%nat.
+Proof.
+  destruct o as [i|i nm|i e]; cbn [reg_step rec_count filter length].
+  - rewrite reg_all_attach. lia.
+  - rewrite reg_all_upd_name, reg_all_attach. lia.
+  - destruct (reg_attach_found r i) as [en F]. rewrite (reg_all_upd_rec _ _ _ _ F), reg_all_attach. lia.
+Qed.
+
+(* and nothing else is in the map: it holds as many events as were recorded *)
+Lemma reg_total ops : length (reg_all (reg_run ops)) = rec_count ops.
+Proof.
+  unfold reg_run. assert (G : forall r, length (reg_all (fold_left reg_step ops r)) = (length (reg_all r) + rec_count ops)%nat).
+  { induction ops as [|o ops IH]; intro r; cbn [fold_left].
+    - unfold rec_count. cbn. lia.
+    - rewrite IH, reg_step_count. unfold rec_count. cbn [filter]. destruct o; cbn [length]; lia. }
+  rewrite G. reflexivity.
+Qed.
+
+(* one entry per id *)
+Lemma reg_keys_upd r id f : (forall en, re_id (f en) = re_id en) -> map re_id (reg_upd r id f) = map re_id r.
+Proof.
+  intro Hf. induction r as [|a r IH]; [reflexivity|]. cbn [reg_upd]. destruct (re_id a =? id); cbn [map].
+  - rewrite Hf. reflexivity.
+  - rewrite IH. reflexivity.
+Qed.
+
+Lemma reg_find_none_notin r id : reg_find r id = None -> ~ In id (map re_id r).
+Proof.
+  induction r as [|a r IH]; cbn [reg_find map]; [intros _ []|].
+  destruct (N.eqb_spec (re_id a) id) as [E|E]; [discriminate|]. intros F [H|H]; [contradiction | exact (IH F H)].
+Qed.
+
+Lemma NoDup_app_snoc {A} (l : list A) x : NoDup l -> ~ In x l -> NoDup (l ++ [x]).
+Proof.
+  induction l as [|a l IH]; intros ND NI; cbn.
+  - constructor; [intros [] | constructor].
+  - inversion ND as [|a' l' Ha ND']; subst. constructor.
+    + rewrite in_app_iff. intros [H|[H|[]]]; [contradiction | subst; apply NI; left; reflexivity].
+    + apply IH; [exact ND' | intro H; apply NI; right; exact H].
+Qed.
+
+Lemma reg_keys_attach r id : NoDup (map re_id r) -> NoDup (map re_id (reg_attach r id)).
+Proof.
+  intro ND. unfold reg_attach. destruct (reg_find r id) eqn:F; [exact ND|].
+  rewrite map_app. cbn [map re_id]. apply NoDup_app_snoc; [exact ND | apply reg_find_none_notin; exact F].
+Qed.
+
+Lemma reg_keys_nodup ops : NoDup (map re_id (reg_run ops)).
+Proof.
+  unfold reg_run. assert (G : forall r, NoDup (map re_id r) -> NoDup (map re_id (fold_left reg_step ops r))).
+  { induction ops as [|o ops IH]; intros r ND; cbn [fold_left]; [exact ND|]. apply IH.
+    destruct o as [i|i nm|i e]; cbn [reg_step].
+    - apply reg_keys_attach; exact ND.
+    - rewrite reg_keys_upd by reflexivity. apply reg_keys_attach; exact ND.
+    - rewrite reg_keys_upd by reflexivity. apply reg_keys_attach; exact ND. }
+  apply G. constructor.
+Qed.
+
+(* completeness for any list of threads (not only freshly recorded ones) *)
+Lemma savelog_complete_threads pname pid ths k t :
+  Forall thread_nested ths -> nth_error ths k = Some t ->
+  events_of_tid (N.of_nat k) (log_objs pname pid ths) = concat (t_events t).
+Proof.
+  intros Hall Hk. unfold log_objs. rewrite events_of_tid_app.
+  assert (E0 : events_of_tid (N.of_nat k) (match pname with Some p => [JProc pid p] | None => [] end) = []).
+  { destruct pname; reflexivity. }
+  rewrite E0. cbn [app]. rewrite emit_threads_events by exact Hall.
+  destruct (N.ltb_spec (N.of_nat k) 0); [lia|]. rewrite N.sub_0_r, Nat2N.id, Hk. reflexivity.
+Qed.
+
+(* the k-th entry of the map, whatever ids were reused, is printed with tid k and holds exactly the
+   events recorded under its id *)
+Lemma savelog_complete_registry pname pid idtext ops k en :
+  (forall id, no_stray_end 0 (recs_of id ops) = true) ->
+  nth_error (reg_run ops) k = Some en ->
+  events_of_tid (N.of_nat k) (log_objs pname pid (reg_threads idtext (reg_run ops))) = recs_of (re_id en) ops.
+Proof.
+  intros Hn Hk.
+  assert (Hget : forall e, In e (reg_run ops) -> concat (re_events e) = recs_of (re_id e) ops).
+  { intros e Hin. rewrite <- reg_events_of. unfold reg_evs, reg_get.
+    pose proof (reg_keys_nodup ops) as ND. revert Hin ND. generalize (reg_run ops) as r.
+    induction r as [|a r IH]; intros Hin ND; [destruct Hin|]. cbn [reg_find map] in *.
+    inversion ND as [|x l Hx ND']; subst. destruct Hin as [->|Hin].
+    - rewrite N.eqb_refl. reflexivity.
+    - destruct (N.eqb_spec (re_id a) (re_id e)) as [E|E].
+      + exfalso. apply Hx. rewrite E. apply in_map. exact Hin.
+      + apply IH; assumption. }
+  rewrite (savelog_complete_threads pname pid _ k (mkThread (match re_name en with Some n => n | None => idtext (re_id en) end) (re_events en))).
+  - cbn [t_events]. apply Hget. eapply nth_error_In. exact Hk.
+  - unfold reg_threads. apply Forall_forall. intros t Ht. apply in_map_iff in Ht. destruct Ht as [e [Et Hin]].
+    subst t. unfold thread_nested. cbn [t_events]. rewrite (Hget e Hin). apply Hn.
+  - unfold reg_threads. rewrite nth_error_map, Hk. reflexivity.
+Qed.
